@@ -47,4 +47,17 @@ def run_case(c):
                 if calc_duration(a, b) != spec.duration_spec(a, b):
                     return {"ok": False, "evaluations": n, "case": {"prop": "C14", "kind": "pair", "inputs": {"start": a, "end": b}}}
         return {"ok": True, "evaluations": n}
+    if k == "schedules":
+        # sequences of schedule objects, slot ids repeating with different times (a duration must never be remembered per slot)
+        from aioswitcher.schedule.parser import SwitcherSchedule
+        rnd = random.Random(i["seed"])
+        for n in range(i["n"]):
+            sid = str(rnd.randrange(4))
+            s, e = rnd.randrange(1440), rnd.randrange(1440)
+            a, b = fmt(s // 60, s % 60), fmt(e // 60, e % 60)
+            d = SwitcherSchedule(sid, False, set(), a, b).duration
+            if d != spec.duration_spec(a, b):
+                return {"ok": False, "evaluations": n + 1, "detail": f"schedule #{n + 1} (slot {sid}) {a}->{b} reports duration {d}",
+                        "expected": spec.duration_spec(a, b)}
+        return {"ok": True, "evaluations": i["n"]}
     raise ValueError(k)
